@@ -33,6 +33,7 @@ class Exe:
         self.tu = tu
         self.sem = Sem(int_mode, num_mode)
         self.sem.ob = self._arith_ob
+        self.sem.assume_cb = lambda t: self.cur.assume(t) if self.cur is not None else None
         self.contracts = contracts or {}
         self.prefix = prefix
         self.obligations = []
@@ -45,9 +46,11 @@ class Exe:
         self.fn_stack = []
         self.errors = []             # (state, callee, msg-node) for every path ending in an error call
         self.loop_ord = {}
-        self.axioms = []             # facts assumed about fresh symbols (sqrt etc.), added to pc when created
+        self.axioms = _AxiomList(self)   # facts about fresh symbols (type ranges, addresses): global truths, added to every obligation
+        self.all_axioms = []
         self.assumed = set()         # names of assumed contracts / effect-free calls actually used
-        self.hooks = {}              # name -> python callable(exe, st, node, args) for special callees
+        from .libc import HOOKS
+        self.hooks = dict(HOOKS)     # name -> python callable(exe, st, node, args) for special callees
         self.check_arith = True
         self.prune_ms = 300 if int_mode == 'bv' else 0
         self.site = ''
@@ -122,11 +125,22 @@ class Exe:
         key = (obj.id, path)
         if key not in self.initarrs:
             self.initarrs[key] = z3.Const('%s%s' % (obj.name, ''.join('.' + p for p in path)), self._arr_sort(obj, path))
+            self._array_range_axiom(self.initarrs[key], obj, path)
         return self.initarrs[key]
+
+    def _array_range_axiom(self, arr, obj, path):
+        """math mode: every element of an integer array lies in its C type's range (quantified, trigger Select(arr, k))."""
+        lt = self.leaf_type(obj, path)
+        if self.sem.int_mode != 'math' or not isinstance(lt, TInt) or len(self.dims_of(obj, path)) != 1:
+            return
+        k = z3.FreshConst(z3.IntSort(), 'k')
+        self.axioms.append(z3.ForAll([k], z3.And(z3.Select(arr, k) >= lt.lo, z3.Select(arr, k) <= lt.hi), patterns=[z3.Select(arr, k)]))
 
     def fresh_array(self, obj, path, tag):
         self.nsym += 1
-        return z3.Const('%s%s@%s#%d' % (obj.name, ''.join('.' + p for p in path), tag, self.nsym), self._arr_sort(obj, path))
+        a = z3.Const('%s%s@%s#%d' % (obj.name, ''.join('.' + p for p in path), tag, self.nsym), self._arr_sort(obj, path))
+        self._array_range_axiom(a, obj, path)
+        return a
 
     def init_cell(self, obj, path, cidx, ct, gen=''):
         key = (obj.id, path, cidx, gen)
@@ -143,7 +157,7 @@ class Exe:
             else:
                 spec = obj.meta.get('ptrfields', {}).get('.'.join(path), {})
                 child = self.new_obj(nm, ct.to if not isinstance(ct.to, TVoid) else TInt(8, False, 'unsigned char'),
-                                     n=spec.get('n'), length=spec.get('len'))
+                                     n=spec.get('n'), length=spec.get('len') if not isinstance(spec.get('len'), str) else None)
                 child.meta = spec.get('meta', {})
                 v = Ptr(child, (0,), (), ct.to)
                 if spec.get('nullable') or gen:
@@ -297,7 +311,8 @@ class Exe:
         if z3.is_true(g):
             self.obligations.append(Obligation(full, [], z3.BoolVal(True), kind, meta))
             return
-        self.obligations.append(Obligation(full, list(st.pc), g, kind, meta))
+        have = {id(t) for t in st.pc}
+        self.obligations.append(Obligation(full, list(st.pc) + [a for a in self.all_axioms if id(a) not in have], g, kind, meta))
 
     def _arith_ob(self, what, goal):
         if not self.check_arith or self.cur is None:
@@ -648,7 +663,7 @@ class Exe:
         if self.axioms:
             for a in self.axioms:
                 st.assume(a)
-            self.axioms = []
+            del self.axioms[:]
         return v
 
     def _normalize(self, p):
@@ -903,7 +918,7 @@ class Exe:
             if self.axioms:
                 for a in self.axioms:
                     st.assume(a)
-                self.axioms = []
+                del self.axioms[:]
             if self.sem.int_mode != 'bv':
                 return self.sem.cast_int(r, T_SIZE, dst)
             return r if dst.width == 64 else z3.Extract(dst.width - 1, 0, r)
@@ -1134,6 +1149,18 @@ class Exe:
     def _ev_CallExpr(self, n, st):
         from .calls import do_call
         return do_call(self, n, st)
+
+
+class _AxiomList(list):
+    """pending axioms; everything ever appended is also kept in exe.all_axioms."""
+
+    def __init__(self, exe):
+        super().__init__()
+        self.exe = exe
+
+    def append(self, x):
+        self.exe.all_axioms.append(x)
+        super().append(x)
 
 
 class PathDead(Exception):
